@@ -345,6 +345,9 @@ func C10(p *core.Prog, rep *core.Report) {
 	hp2Conservation(p, rep)
 	hp3NoDuplicates(p, rep)
 	sk1SeekInclusive(p, rep)
+	tb5cMoversWrite(p, rep)
+	tb5dDirectionSymmetry(p, rep)
+	tb3bIndexImplParity(p, rep)
 	// constructors run under the shard lock (LK7 instances of the iterator call)
 	full := core.NewReport("C09")
 	runLockRules(p, full, false)
@@ -368,6 +371,9 @@ func C14(p *core.Prog, rep *core.Report) {
 	hp2Conservation(p, rep)
 	hp3NoDuplicates(p, rep)
 	sk1SeekInclusive(p, rep)
+	tb5cMoversWrite(p, rep)
+	tb5dDirectionSymmetry(p, rep)
+	tb3bIndexImplParity(p, rep)
 	v := newVF(p, rep)
 	v.vf3Replay()
 	rep.Notes = append(rep.Notes, "considered and rejected: 'both arms of every branch on DataFileSize/SyncStrategy produce the same WRITE/INDEX-UPDATE trace' - the batch overflow branch legitimately flushes early in one arm")
